@@ -194,14 +194,17 @@ def tree_recipe(rng, depth=3, kinds=None, well_typed=False, null_p=0.1, fns=None
             tree_recipe(rng, depth - 1, kinds, well_typed, null_p, fns))
 
 
-def build_tree(t):
+def build_tree(t, operators=False):
+    """operators=True: combinations are built with the python operators & | ^ instead of the classes"""
     import valida.conditions as c
 
     if t[0] == "null":
         return c.NullCondition()
     if t[0] == "leaf":
         return build_leaf(t[1])
-    l, r = build_tree(t[1]), build_tree(t[2])
+    l, r = build_tree(t[1], operators), build_tree(t[2], operators)
+    if operators:
+        return (l & r) if t[0] == "and" else (l | r) if t[0] == "or" else (l ^ r)
     return {"and": c.ConditionAnd, "or": c.ConditionOr, "xor": c.ConditionXor}[t[0]](l, r)
 
 
